@@ -295,7 +295,7 @@ theorem exec_agree (h0 : ∀ k, k ≠ a → ia0.get k = ia'.get k) :
     have h : ∀ k, k ≠ a → σ.ia.get k = ia'.get k := by rw [hσ]; exact h0
     simp only [readsS] at hr
     simp only [exec, setIA_iv, setIA_ia, evalI_agree (iv := σ.iv) h v hr, safeE_agree h v hr,
-      eval_agree h v hr]
+      eval_agree h v hr, evalB_agree h v hr]
     by_cases hdt : (dt == DType.int) = true
     · simp only [hdt, ↓reduceIte]
       cases evalI σ.iv ia' v with
